@@ -770,6 +770,26 @@ def copy_check():
             if not close(got, want):
                 out.append(("stale-after-deepcopy", "%s: %s returned %s; a freshly constructed model with those values returns %s"
                             % (who, e, np.round(got, 6).tolist(), np.round(want, 6).tolist())))
+    # ... and a process added to the copy belongs to the copy: its evaluators follow, the original's do not
+    extra = dict(op="mut", how="add_event_E", rate=dict(k="lin", p="p0", X="R", Y="S"), tr=[dict(tt="T", o="R", d="S", mag=1)])
+    cp2 = copy.deepcopy(live)
+    do_mut(cp2, extra)
+    defn2 = new_def(dict(h, base=h["base"] + [extra]))
+    fresh2 = build(defn2, v_old)
+    for who, mdl, ref in (("a deep copy to which a process was added", cp2, fresh2), ("the original (a process was added to its copy)", live, fresh_old)):
+        for e in EVALS11:
+            try:
+                want = np.asarray(getattr(ref, e)(x, 0.0), dtype=float)
+            except BaseException:      # noqa: B902
+                continue
+            try:
+                got = np.asarray(getattr(mdl, e)(x, 0.0), dtype=float)
+            except BaseException as ex:      # noqa: B902
+                out.append(("error-after-deepcopy", "%s: %s raised %r" % (who, e, ex)))
+                continue
+            if not close(got, want):
+                out.append(("stale-after-deepcopy", "%s: %s returned %s; a freshly constructed model with that definition returns %s"
+                            % (who, e, np.round(got, 6).tolist(), np.round(want, 6).tolist())))
     return out[:3]
 
 
